@@ -47,7 +47,7 @@ def mk_type(t, fresh=False):
             return Union[tuple(None if o == 'none' else mk_type(o, True) for o in t[1:])]
         if k == 'cont':
             _cont_counter[0] += 1
-            return type('F%d' % _cont_counter[0], (Container,), {'__annotations__': {'f%d' % i: mk_type(ft, True) for i, ft in enumerate(t[1:])}})
+            return type('Rec%d' % (_cont_counter[0] % 3), (Container,), {'__annotations__': {'f%d' % i: mk_type(ft, True) for i, ft in enumerate(t[1:])}})
     if key in _type_cache:
         return _type_cache[key]
     if isinstance(t, str):
@@ -100,7 +100,7 @@ def mk_container(t, key):
             else:
                 base_ann[names[0]] = uint8 if types[0] is not uint8 else uint16
             derived_ann = dict([(names[0], types[0])] + list(derived_ann.items()))
-        Base = type('B%d' % _cont_counter[0], (Container,), {'__annotations__': base_ann})
+        Base = type('Base%d' % (_cont_counter[0] % 2), (Container,), {'__annotations__': base_ann})
         for f in (lambda: Base.is_fixed_byte_length(), lambda: Base.min_byte_length(), lambda: Base.max_byte_length(),
                   lambda: Base.type_byte_length(), lambda: Base().encode_bytes(), lambda: Base().value_byte_length(),
                   lambda: list(Base()), lambda: Base().to_obj(), lambda: Base.from_obj(Base().to_obj()),
@@ -111,8 +111,10 @@ def mk_container(t, key):
                 f()
             except Exception:
                 pass
-        return type('C%d' % _cont_counter[0], (Base,), {'__annotations__': derived_ann})
-    return type('C%d' % _cont_counter[0], (Container,), {'__annotations__': dict(zip(names, types))})
+        return type('Rec%d' % (_cont_counter[0] % 3), (Base,), {'__annotations__': derived_ann})
+    # (only a handful of distinct class NAMES are used, as code bases with several forks / modules do: a cache keyed by the
+    # printed type name must not confuse them)
+    return type('Rec%d' % (_cont_counter[0] % 3), (Container,), {'__annotations__': dict(zip(names, types))})
 
 
 def kind(t):
